@@ -9,7 +9,7 @@ func init() {
 			{Name: "TestProbes"},
 			{Name: "TestSecurity", Rapid: true, Quick: 150, Thorough: 600, QuickShards: 1, ThoroughShards: 6, DesignsQuick: 32, DesignsThorough: 120},
 		},
-		Rule:      "a case = (generated design with Basic/API key/JWT/OAuth2 schemes in 1-3 alternative requirements of 1-2 schemes declared at API, service or method level, NoSecurity overrides, credentials mapped to headers/query or left implicit; method; payload with generated credential strings; accept/reject outcome for every scheme). Non-trivial = the first requirement fails and a later one succeeds, or a two-scheme requirement fails on its second scheme, or the requirements are inherited from the service/API level. Distinct = SHA-256 of method, outcome vector and payload.",
+		Rule:      "a case = (generated design with Basic/API key/JWT/OAuth2 schemes in 1-3 alternative requirements of 1-2 schemes declared at API, service or method level, NoSecurity overrides, credentials mapped to headers/query or left implicit; method; payload with generated credential strings; accept/reject outcome for every scheme; in half of the cases also the set of scopes the caller holds, which the recording callbacks enforce the documented way, with scheme.Validate(granted): a callback then accepts when its outcome says so and Validate returns nil, and Validate must fail exactly when a required scope is not granted). Non-trivial = the first requirement fails and a later one succeeds, or a two-scheme requirement fails on its second scheme, or the requirements are inherited from the service/API level, or some but not all scopes of a requirement with >= 2 required scopes are granted. Distinct = SHA-256 of method, outcome vector and payload.",
 		LevelText: "Generated-input search with a recording Auther: the method must run iff some requirement has all its schemes accepted (reference evaluation of the outcome vector); every callback invocation must concern a scheme of the effective requirements and receive the credential the client sent in the designed place (bearer prefix removed for header-carried tokens) with the scheme's declared scopes and a requirement's required scopes; NoSecurity and unsecured methods see no callback; a denied caller receives a rejecting callback's error.",
 		LevelNote: "Trusts the Go tool chain, net/http, rapid and the verifier's model/oracle and harness (the recording Auther is generated glue). Outcome vectors are sampled by rapid (at most 4 schemes per design, so every vector is drawn many times) rather than enumerated. The security profile includes websocket streaming endpoints (the requirement is decided before the upgrade; when it is satisfied a short scripted stream runs) and dual-transport services.",
 		Technique: "property-based testing (rapid): reference evaluation of requirement sets against a recording authorization callback behind generated endpoints, server and client",
